@@ -177,9 +177,33 @@ func BVLit(w int, v *big.Int) Term {
 
 func BVLitI(w int, v int64) Term { return BVLit(w, big.NewInt(v)) }
 
+func isZeroLit(t Term) bool {
+	if !strings.HasPrefix(t.S, "#x") && !strings.HasPrefix(t.S, "#b") {
+		return false
+	}
+	return strings.Trim(t.S[2:], "0") == ""
+}
+
 func BVOp(op string, a, b Term) Term {
 	if a.Sort != b.Sort {
 		panic(fmt.Sprintf("%s: sort mismatch %s:%s vs %s:%s", op, a.S, a.Sort, b.S, b.Sort))
+	}
+	switch op {
+	case "bvadd", "bvor", "bvxor":
+		if isZeroLit(b) {
+			return a
+		}
+		if isZeroLit(a) {
+			return b
+		}
+	case "bvsub", "bvshl", "bvlshr", "bvashr":
+		if isZeroLit(b) {
+			return a
+		}
+	case "bvmul":
+		if isZeroLit(a) || isZeroLit(b) {
+			return BVLitI(a.Sort.Width(), 0)
+		}
 	}
 	return app(a.Sort, op, a, b)
 }
